@@ -28,6 +28,9 @@ type Val struct {
 	Own      bool // has a classification of its own (redactable, SafeFormatter, SafeMessager, wrappers)
 	Addr     bool // rendering contains addresses
 	Passive  bool // no user methods
+	// UnsafeFmt: the value has a classification of its own, but under an outermost Unsafe() that classification is
+	// bypassed and the characters are exactly what fmt prints for the bare value
+	UnsafeFmt bool
 	WrapOnly bool // own classification only through Safe()/Unsafe() wrappers and SafeValue types (no redactable, SafeFormatter, SafeMessager inside)
 }
 
@@ -528,7 +531,11 @@ func universe() []Val {
 	add(o("[]RedactableString", func(v int) interface{} {
 		return []redact.RedactableString{redact.RedactableString(mStart + secPlain[v] + mEnd), "s"}
 	}))
-	add(o("SafeFormatter", func(v int) interface{} { return safeFmtT{"key", secStrLF[v]} }))
+	add(func() Val {
+		x := o("SafeFormatter", func(v int) interface{} { return safeFmtT{"key", secStrLF[v]} })
+		x.UnsafeFmt = true
+		return x
+	}())
 	add(o("*SafeFormatter", func(v int) interface{} { return &safeFmtT{"key", secStr[v]} }))
 	add(o("[]SafeFormatter", func(v int) interface{} { return []safeFmtT{{"k1", secStr[v]}, {"k2", secPlain[v]}} }))
 	add(o("StringBuilder", func(v int) interface{} {
@@ -542,7 +549,21 @@ func universe() []Val {
 		b.Printf("n=%s %s", secPlain[v], redact.Safe("ok"))
 		return b
 	}))
-	add(o("SafeMessager", func(v int) interface{} { return safeMsgT{secStr[v]} }))
+	add(func() Val {
+		x := o("SafeMessager", func(v int) interface{} { return safeMsgT{secStr[v]} })
+		x.UnsafeFmt = true
+		return x
+	}())
+	add(func() Val {
+		x := o("SafeMessager+Stringer / []SafeMessager", func(v int) interface{} {
+			return []interface{}{smStrT{secStr[v]}, []safeMsgT{{secPlain[v]}}, map[string]interface{}{"k": smStrT{secPlain[v]}}}
+		})
+		x.UnsafeFmt = true
+		return x
+	}())
+	add(o("RedactableString starting and ending with an envelope", func(v int) interface{} {
+		return redact.RedactableString(mStart + secPlain[v] + mEnd + "mid" + mStart + secStr[v][:3] + mEnd)
+	}))
 	add(o("SafeFormatter calling top-level Sprintf", func(v int) interface{} {
 		return scriptedFn(func(p redact.SafePrinter) {
 			p.SafeString("o:")
@@ -633,6 +654,12 @@ func (l lookalikeT) Unwrap() error             { return errT{"unwrapped"} }
 func (l lookalikeT) Cause() error              { return errT{"cause"} }
 func (l lookalikeT) String() string            { return "look(" + l.s + ")" }
 func (l lookalikeT) GetValue() (string, error) { return "gv", nil }
+
+// smStrT: a SafeMessager that is also a Stringer (fmt prints String(), redact prints the message - except under Unsafe)
+type smStrT struct{ s string }
+
+func (m smStrT) SafeMessage() string { return "account" }
+func (m smStrT) String() string      { return "account(" + m.s + ")" }
 
 // idxStrT: the enum-with-name-table idiom; an out-of-range value panics with a runtime error whose text embeds the value
 type idxStrT int
